@@ -91,10 +91,6 @@ def free_tvars(t):
     return [n[1] for n in walk(t) if n[0] in ("tv", "unpack")]
 
 
-def has_unspec(t):
-    return any(n[0] in ("unspec", "unspec_seq") for n in walk(t))
-
-
 def subst(t, envr):
     tag = t[0]
     if tag == "tv":
